@@ -455,6 +455,30 @@ fn near_modulus(f: &'static Fld) -> BoxedStrategy<(Num, String)> {
         1 => Just((Num(&t2 - 1u32), "all-ones".to_string())),
         2 => proptest::collection::vec(any::<u8>(), nb).prop_map(|b| (Num(N::from_bytes_le(&b)), "uniform-bytes".to_string())),
         1 => gen::limb_vec(nb / 8).prop_map(|l| (Num(crate::api::int_of_limbs(&l)), "limb-pattern".to_string())),
+        // values that tie with the modulus in their top k 64-bit limbs; every lower limb is 0, all ones,
+        // the modulus' own limb, that limb +-1, 2^63, or random: what a limb-wise comparison (range check
+        // written as a chain of tie clauses) has to get right, above and below the modulus
+        4 => {
+            let m4 = f.m.clone();
+            let nl = nb / 8;
+            (1usize..nl.max(2), proptest::collection::vec((0u8..8, any::<u64>()), nl)).prop_map(move |(k, low)| {
+                let ml = m4.to_u64_digits();
+                let mut limbs: Vec<u64> = (0..nl).map(|i| ml.get(i).copied().unwrap_or(0)).collect();
+                for i in 0..nl.saturating_sub(k) {
+                    let (pat, rnd) = low[i];
+                    limbs[i] = match pat {
+                        0 => 0,
+                        1 => u64::MAX,
+                        2 => limbs[i],
+                        3 => limbs[i].wrapping_add(1),
+                        4 => limbs[i].wrapping_sub(1),
+                        5 => 1u64 << 63,
+                        _ => rnd,
+                    };
+                }
+                (Num(crate::api::int_of_limbs(&limbs)), "ties-with-modulus".to_string())
+            })
+        },
     ]
     .boxed()
 }
